@@ -1553,6 +1553,64 @@ func stdIntrinsic(name string, fn *ssa.Function) intrinsicFn {
 			}
 			return n
 		}
+	case strings.HasPrefix(name, "slices.Delete["):
+		// slices.Delete(s, i, j): removes s[i:j] in place (elements shifted down, vacated tail zeroed), result aliases s
+		return func(x *Exec, f *ssa.Function, a []Value) Value {
+			s, _ := a[0].(*SliceV)
+			n := 0
+			if s != nil {
+				n = s.Len
+			}
+			i := x.concIndex(a[1], n+1, "slices.Delete index")
+			j := x.concIndex(a[2], n+1, "slices.Delete index")
+			if i > j {
+				x.abort("PANIC", "slices.Delete: slice bounds out of range")
+			}
+			if i == j {
+				return a[0]
+			}
+			elems := x.sliceElems(s)
+			copy(elems[i:], elems[j:])
+			et := f.Signature.Params().At(0).Type().Underlying().(*types.Slice).Elem()
+			for k := n - (j - i); k < n; k++ {
+				elems[k] = x.zero(et)
+			}
+			return &SliceV{Arr: s.Arr, Off: s.Off, Len: n - (j - i), Cap: s.Cap}
+		}
+	case strings.HasPrefix(name, "slices.Insert["):
+		// slices.Insert(s, i, v...): in place when the capacity allows (result aliases s), otherwise a fresh array
+		return func(x *Exec, f *ssa.Function, a []Value) Value {
+			s, _ := a[0].(*SliceV)
+			n := 0
+			if s != nil {
+				n = s.Len
+			}
+			i := x.concIndex(a[1], n+1, "slices.Insert index")
+			var add []Value
+			if v, _ := a[2].(*SliceV); v != nil {
+				add = x.sliceElems(v)
+			}
+			m := len(add)
+			if m == 0 {
+				return a[0]
+			}
+			if s != nil && n+m <= s.Cap {
+				arr := s.Arr.Val.(*Agg).Elems[s.Off : s.Off+s.Cap]
+				copy(arr[i+m:n+m], arr[i:n])
+				for k, e := range add {
+					arr[i+k] = copyVal(e)
+				}
+				return &SliceV{Arr: s.Arr, Off: s.Off, Len: n + m, Cap: s.Cap}
+			}
+			var elems []Value
+			old := x.sliceElems(s)
+			elems = append(elems, old[:i]...)
+			for _, e := range add {
+				elems = append(elems, copyVal(e))
+			}
+			elems = append(elems, old[i:]...)
+			return x.newSlice(elems, "insert")
+		}
 	case strings.HasPrefix(name, "slices.Clone["):
 		return func(x *Exec, _ *ssa.Function, a []Value) Value {
 			s, _ := a[0].(*SliceV)
